@@ -49,7 +49,9 @@ def producible(words):
 def alloc_cases(draw):
     n = draw(st.integers(0, 30))
     return dict(part="alloc", n=draw(st.integers(1, 8)), mode=draw(st.sampled_from(["delegate", "deferred"])),
-                pre=draw(st.integers(0, 3)), tape=draw(st.binary(min_size=n, max_size=n)))
+                pre=draw(st.integers(0, 3)), tape=draw(st.binary(min_size=n, max_size=n)),
+                # allocate_code() issued before the server connection exists, or once it is up (after the welcome)
+                when=draw(st.sampled_from(["first", "connected"])))
 
 
 BAD_NP = ["", " ", "1 ", " 1", "1 2", "a", "1a", "a1", "4x", "4.5", "-", "+1", "-1", "1\t", "\t1", "1\n", "\n1", "1\r",
@@ -108,7 +110,9 @@ def complete_cases(draw):
 def onlyone_cases(draw):
     return dict(part="onlyone", first=draw(st.sampled_from(["allocate", "set", "input"])),
                 second=draw(st.sampled_from(["allocate", "set", "input"])),
-                mode=draw(st.sampled_from(["delegate", "deferred"])), settle=draw(st.booleans()))
+                mode=draw(st.sampled_from(["delegate", "deferred"])), settle=draw(st.booleans()),
+                # calls that are refused in between (a malformed code, a repeated call) must not re-arm the guard
+                between=draw(st.lists(st.sampled_from(["badset", "badset2", "allocate", "set", "input"]), max_size=2)))
 
 
 def strategy(tier, part="alloc"):
@@ -151,6 +155,8 @@ def run_alloc(c, res):
             rc = mbworld.RawClient(W, "appid", side="pre%d" % k)
             rc.cmd("allocate")
         w, dg = _mk(W, c["mode"])
+        if c.get("when") == "connected":
+            W.settle(max_steps=300)
         w.allocate_code(c["n"])
         W.settle(tape=Tape(c["tape"]), max_steps=300)
         W.settle(max_steps=300)
@@ -172,7 +178,7 @@ def run_alloc(c, res):
     finally:
         W.close()
     res.nontrivial = c["n"] >= 3 or c["pre"] > 0
-    res.features = dict(part="alloc", n=c["n"], pre=c["pre"], mode=c["mode"])
+    res.features = dict(part="alloc", n=c["n"], pre=c["pre"], mode=c["mode"], when=c.get("when"))
 
 
 def ref_valid_nameplate(np_):
@@ -394,7 +400,7 @@ def run_complete(c, res):
 def run_onlyone(c, res):
     from simworld import World
     from wormhole.errors import OnlyOneCodeError
-    W = World(b"c19o" + (c["first"] + c["second"]).encode())
+    W = World(b"c19o" + (c["first"] + c["second"] + "".join(c.get("between") or [])).encode())
     try:
         w, dg = _mk(W, c["mode"])
 
@@ -408,6 +414,20 @@ def run_onlyone(c, res):
         call(c["first"])
         if c["settle"]:
             W.settle(max_steps=300)
+        from wormhole.errors import KeyFormatError
+        for b in c.get("between") or []:
+            try:
+                if b == "badset":
+                    w.set_code("bad code")
+                elif b == "badset2":
+                    w.set_code("x-purple-sausages")
+                else:
+                    call(b)
+            except (OnlyOneCodeError, KeyFormatError) as ex:
+                res.notes["between_%s_%s" % (b, type(ex).__name__)] += 1
+            except Exception as ex:
+                res.violate("onlyone", "%s then %s raised %r" % (c["first"], b, ex),
+                            input_class="second-code-call-raises-%s" % type(ex).__name__, exc=type(ex).__name__)
         try:
             call(c["second"])
             res.violate("onlyone", "%s then %s: second call did not raise" % (c["first"], c["second"]),
